@@ -19,6 +19,7 @@ CONSTANTS
   HealOdds = 3
   ListLag = FALSE
   FixSkew = FALSE
+  Edge = FALSE
 VIEW View
 INVARIANTS InvNotStaleEmit
 CHECK_DEADLOCK FALSE
